@@ -6,6 +6,7 @@ import os
 import random
 import shutil
 import sys
+import tempfile
 
 from . import outparse as op
 from .spec import even_spread
@@ -90,6 +91,12 @@ def to_argv(v, outdir, rng=None):
                 txt = v['skew_text']
             chunks.append(['-' + k, txt])
     if rng is not None:
+        r = rng.random()
+        for c in chunks:
+            if c[0] == '-o' and r < 0.06:
+                c[1] = outdir + '/'                                           # trailing separator
+            elif c[0] == '-o' and r < 0.12:
+                c[1] = os.path.relpath(outdir, tempfile.gettempdir())         # relative to the working directory (run_generator)
         rng.shuffle(chunks)
         for c in chunks:
             if c[0] in GEN_LONG and rng.random() < 0.15:     # documented long forms
@@ -180,7 +187,9 @@ def run_generator(argv, seed):
     out = {'exit': None, 'exc': None, 'stderr': '', 'fs': []}
     FS.install()
     FS.start()
+    cwd = os.getcwd()
     try:
+        os.chdir(tempfile.gettempdir())      # the worker's private scratch directory; relative -o spellings start here
         with contextlib.redirect_stderr(err):
             Generator(list(argv))
     except SystemExit as e:
@@ -190,6 +199,7 @@ def run_generator(argv, seed):
         out['exc'] = exc_info(e) if isinstance(e, Exception) else {'type': type(e).__name__, 'msg': str(e), 'where': ''}
     finally:
         out['fs'] = FS.stop()
+        os.chdir(cwd)
     out['stderr'] = err.getvalue()
     return out
 
